@@ -57,7 +57,8 @@ CHECKS["C18"] = dict(
     note=TRUST + "; visible parameters are abstracted to a tag in the model and checked bit for bit on the real objects")
 CHECKS["C02"] = dict(
     text="TLC checks specs/GmmStats.tla (containers on a heap with a ghost bag of covered samples; E-step per block, + creating "
-         "a new container, += mutating its left operand, refused shape mismatch) for ValueIsSumOfCovers, NNonNegSumsToT, "
+         "a new container, += mutating its left operand, refused shape mismatch, zero accumulators from the constructor / resize / "
+         "init_fields and reset of a retired container) for ValueIsSumOfCovers, NNonNegSumsToT, "
          "SameCoversSameValue, AddDoesNotMutate and MismatchRefused over every set partition of the samples and every order and "
          "kind of combination; exhaustive and simulated behaviours are replayed on real GMMStats objects (NumPy and Dask input): "
          "after every operation every container must equal the sum of the single-sample statistics TLC says it covers, and "
@@ -99,8 +100,11 @@ CHECKS["C03"] = dict(
          "mean computed as E[x^2]-m^2) is refuted. ml_gmm_m_step is replayed on the exact statistics of every exported state. "
          "Seeded training runs (8 switch sets, NumPy and Dask, caps and thresholds incl. None) are recorded as rank traces of the "
          "average log-likelihood with exact comparisons of the reported criteria and validated by TLC against specs/TraceLoop.tla "
-         "(monotone unless a floor is active, cap respected, no convergence before step 2, stop at the first crossing); the same "
-         "TrainLoop guards are model-checked exhaustively inside specs/KMeans.tla.",
+         "(monotone unless a floor is active, cap respected, no convergence before step 2, stop at the first crossing; thresholds "
+         "placed 2 % beside the trajectory's own relative changes, threshold 0.0 on exactly stationary runs, runs without an "
+         "iteration limit); specs/GmmFit.tla (which initialisation runs, how successive fit() calls and a user's "
+         "initialize_gaussians() compose) is model-checked and every exported behaviour executed; the same TrainLoop guards are "
+         "model-checked exhaustively inside specs/KMeans.tla.",
     ref="DESIGN.md section 5 (C03)",
     technique="TLA+/TLC model checking of the M-step + replay + TLC trace validation of training runs",
     note=TRUST + "; likelihood ascent on real-valued data needs exp/log and is decided by trace validation, not by TLC; the EM "
@@ -231,8 +235,9 @@ CHECKS["C12"] = dict(
 CHECKS["C16"] = dict(
     text="TLC checks specs/Determinism.tla: the global NumPy generator as an abstract token stream, each estimator's randomness "
          "source as written (own seeded generator / reseed-global-then-draw / none), histories of perturbations and fits with "
-         "sample orders and class relabellings: ResultIsFunctionOfMultisetAndSeed, HistoryIndependent, "
-         "RandomnessComesFromOwnSeed, GlobalStreamEffectDocumented; five deviations are refuted. Sampled histories are executed "
+         "sample orders and class relabellings, on fresh objects and on objects an earlier step fitted (k-means machines, WCCN, a "
+         "k_means_trainer shared by GMMs): ResultIsFunctionOfMultisetAndSeed, HistoryIndependent, "
+         "RandomnessComesFromOwnSeed, GlobalStreamEffectDocumented; six deviations are refuted. Sampled histories are executed "
          "in one process on the real estimators (k-means, GMM, ISV, JFA from statistics and arrays, in-memory and Dask, WCCN): "
          "every fit bitwise equal to a reference computed first, permuted samples and relabelled classes equal to 1e-8.",
     ref="DESIGN.md section 5 (C16)",
